@@ -151,16 +151,19 @@ package vm
 //@   alsofor C08
 
 // Run: an execution error yields no result; otherwise the postings handed to the ledger are the machine's, field by field, in order.
+// the result of the last run (the command engine commits exactly this: C09)
+//@ ghost lastVMResult *vm.Result
 //@ func vm.Run
 //@   requires m != nil
 // the machine is in the state ResolveResources/ResolveBalances leave it in: well-formed balance tables, empty stack, no postings
 //@   assumes minv(m)
-//@   modifies Machine.Stack, Machine.P, Machine.Postings, map[machine.Asset]*machine.MonetaryInt, map[string]machine.Value, map[machine.AccountAddress]map[string]machine.Value, machine.Funding.*, box machine.Allotment, box int, chan, map[string]string, map[string]metadata.Metadata
+//@   modifies Machine.Stack, Machine.P, Machine.Postings, map[machine.Asset]*machine.MonetaryInt, map[string]machine.Value, map[machine.AccountAddress]map[string]machine.Value, machine.Funding.*, box machine.Allotment, box int, chan, map[string]string, map[string]metadata.Metadata, ghost lastVMResult
 //@   ensures err != nil ==> ret0 == nil
 //@   ensures err == nil ==> ret0 != nil && len(ret0.Postings) == len(m.Postings)
 //@   ensures err == nil ==> forall k in 0..len(m.Postings) :: ret0.Postings[k].Source == m.Postings[k].Source && ret0.Postings[k].Destination == m.Postings[k].Destination && ret0.Postings[k].Asset == m.Postings[k].Asset && ret0.Postings[k].Amount == m.Postings[k].Amount
 //@   loop 1 invariant 0 - 1 <= rangeindex && rangeindex < len(m.Postings) && len(result.Postings) == len(m.Postings)
 //@   loop 1 invariant forall k in 0..rangeindex+1 :: result.Postings[k].Source == m.Postings[k].Source && result.Postings[k].Destination == m.Postings[k].Destination && result.Postings[k].Asset == m.Postings[k].Asset && result.Postings[k].Amount == m.Postings[k].Amount
+//@   update lastVMResult = ret0
 //@   property C01 C09
 
 // the JSON views only build fresh metadata maps
